@@ -51,6 +51,7 @@ class Tracer:
         self.phase_now = 0
         self.reparse = False
         self.check_viol = False
+        self.last_digest = None
         self.mode = "fix"
 
     # ------------------------------------------------------------------ helpers
@@ -242,7 +243,12 @@ def wrap_rule(T, oRule):
             T.emit({"e": "Idx", "ok": idx_ok, "what": idx_what or "", "rule": T.rid(oRule)})
             if idx_ok:
                 T.dirty = False
-        d0 = cheap_digest(oFile.lAllObjects)
+        # the digest taken after the previous analysis of the same list object is still valid unless a fix ran in between
+        lAll0 = oFile.lAllObjects
+        if T.last_digest is not None and T.last_digest[0] is lAll0 and T.last_digest[1] == len(lAll0):
+            d0 = T.last_digest[2]
+        else:
+            d0 = cheap_digest(lAll0)
         D0 = deep_digest(oFile.lAllObjects) if T.deep else None
         nv0 = len(oRule.violations)
         try:
@@ -250,7 +256,9 @@ def wrap_rule(T, oRule):
         except Exception as e:
             T.emit({"e": "Crash", "rule": T.rid(oRule), "where": "analyze", "exc": type(e).__name__, "msg": str(e)[:200], "phase": oRule.phase or 0})
             raise
-        pure = cheap_digest(oFile.lAllObjects) == d0
+        d1 = cheap_digest(oFile.lAllObjects)
+        pure = d1 == d0
+        T.last_digest = (oFile.lAllObjects, len(oFile.lAllObjects), d1) if T.cur is None or T.cur["rule"] is not oRule else None
         what = None
         if T.deep:
             what = deep_diff(D0, deep_digest(oFile.lAllObjects))
@@ -284,6 +292,7 @@ def wrap_rule(T, oRule):
         if cur is not None and cur["rule"] is oRule and not T.muted:
             cur["reported"] = [(int(v.get_line_number() or 0)) for v in before]
             cur["kept"] = list(oRule.violations)
+            T.stats["nfix"] = T.stats.get("nfix", 0) + len(oRule.violations)
             if oRule.violations:
                 lAll = cur["file"].lAllObjects
                 cur["L0"] = list(lAll)
@@ -312,6 +321,7 @@ def wrap_rule(T, oRule):
             T.emit({"e": "Crash", "rule": T.rid(oRule), "where": "fix", "exc": type(e).__name__, "msg": str(e)[:200], "phase": oRule.phase or 0})
             raise
         T.cur = None
+        T.last_digest = None
         try:
             emit_fix(T, oRule, oFile, cur, dFixOnly, pre_list_digest)
         except Exception:
@@ -374,7 +384,14 @@ def emit_fix(T, oRule, oFile, cur, dFixOnly, pre_list_digest):
                 inwin.add(id(t))
             for t in post_objs:
                 inwin.add(id(t))
-            w = {"s": iStart, "n": iEnd - iStart, "pre": pre, "post": post_abs}
+            rid_ = oRule.unique_id
+            tagged = False
+            for t in pre_objs:
+                ct = getattr(t, "code_tags", None) or []
+                if rid_ in ct or "all" in ct:
+                    tagged = True
+                    break
+            w = {"s": iStart, "n": iEnd - iStart, "pre": pre, "post": post_abs, "tagged": tagged}
             if toi is not None:
                 w["ts"], w["te"], w["toiU"], w["line"] = toi[0], toi[1], T.us(toi[2]), toi[3]
             else:
@@ -590,7 +607,13 @@ def install():
             T.emit({"e": "Rejected", "exc": type(e).__name__, "msg": str(msg)[:300]})
             raise
         T.dirty = True
-        T.emit({"e": "Parse", "toks": T.abs_list(self.lAllObjects), "raw": sum(1 for t in self.lAllObjects if type(t) is parser.item)})
+        content_lines = [str(x).rstrip("\n").rstrip("\r") for x in self.filecontent]
+        try:
+            rt = self.get_lines()[1:] == content_lines
+        except Exception:
+            rt = False
+        T.emit({"e": "Parse", "toks": T.abs_list(self.lAllObjects), "raw": sum(1 for t in self.lAllObjects if type(t) is parser.item),
+                "rt": rt, "lineLens": [len(x) for x in content_lines]})
         return ret
 
     VF._processFile = _processFile
